@@ -59,6 +59,18 @@ Theorem C03_round_digits : init_box_round_digits = 5%Z.
 Proof. exact eq_refl. Qed.
 Print Assumptions C03_round_digits.
 
+(* the mass summed for the density box: the [ atoms ] mass whenever one is given -- also a
+   zero mass of a virtual site -- else the atom-type mass (T: presence test of the source) *)
+Theorem C03_mass_lookup : forall (M : Type) (e t : option M),
+  (forall m, e = Some m -> atom_mass e t = Some m) /\ (e = None -> atom_mass e t = t).
+Proof. exact mass_lookup. Qed.
+Print Assumptions C03_mass_lookup.
+
+Theorem C03_mass_guards : explicit_mass_guard = ["'mass' in molecule.nodes[node]"]%string /\
+                          type_mass_guard = ["not ('mass' in molecule.nodes[node])"]%string.
+Proof. exact gen_mass_guards. Qed.
+Print Assumptions C03_mass_guards.
+
 (* density: the translated formula cubes to mass * 1.6605410 / density, and an edge rounded
    to within d of it has a volume within 3 (e0 + d)^2 d of that *)
 Theorem C03_density_box_volume : forall m rho e d, (0 < m)%R -> (0 < rho)%R -> (0 <= d)%R -> (d <= box_edge m rho)%R ->
